@@ -464,8 +464,26 @@ func (w *twkbWriter) writeGeometryCollection(gc GeometryCollection) error {
 		}
 		subTWKB := subWriter.formTWKB()
 		w.twkbContents = append(w.twkbContents, subTWKB...)
+		w.expandBBox(subWriter)
 	}
 	return nil
+}
+
+// expandBBox expands the bounding box to include the bounding box of a sub
+// writer (used for a child of a GeometryCollection).
+func (w *twkbWriter) expandBBox(sub *twkbWriter) {
+	if !sub.bboxValid {
+		return
+	}
+	for d := 0; d < w.dimensions; d++ {
+		if !w.bboxValid || sub.bboxMin[d] < w.bboxMin[d] {
+			w.bboxMin[d] = sub.bboxMin[d]
+		}
+		if !w.bboxValid || sub.bboxMax[d] > w.bboxMax[d] {
+			w.bboxMax[d] = sub.bboxMax[d]
+		}
+	}
+	w.bboxValid = true
 }
 
 func (w *twkbWriter) writeTypeAndPrecision(kind twkbGeometryType) {
